@@ -36,6 +36,9 @@ pub struct C20Case {
     pub http: bool,
     /// post each content right before its frame (else all contents first)
     pub content_late: bool,
+    /// with `http`: frames are imported with `xs::client::import` instead of the raw client
+    #[serde(default)]
+    pub client: bool,
 }
 
 pub fn strategy() -> BoxedStrategy<C20Case> {
@@ -48,8 +51,9 @@ pub fn strategy() -> BoxedStrategy<C20Case> {
         any::<bool>(),
         any::<bool>(),
         any::<bool>(),
+        proptest::bool::weighted(0.4),
     )
-        .prop_map(|(mut source, order, dups, junk, reopen_target, http, content_late)| {
+        .prop_map(|(mut source, order, dups, junk, reopen_target, http, content_late, client)| {
             source.follower = false;
             source.access = Access::Api;
             C20Case {
@@ -60,6 +64,7 @@ pub fn strategy() -> BoxedStrategy<C20Case> {
                 reopen_target,
                 http,
                 content_late,
+                client: client && http,
             }
         })
         .boxed()
@@ -105,6 +110,7 @@ fn run_with_source(case: &C20Case, src: &mut Interp) -> Result<CaseInfo, Fail> {
     // ---- target -------------------------------------------------------------
     let access = if case.http { Access::Http } else { Access::Api };
     let mut tgt = Interp::start_with(Layout::Plain, true, access)?;
+    tgt.via_client = case.client && case.http;
     let res = import_and_compare(case, src, &mut tgt, &frames, &contents, clock);
     tgt.finish_ref();
     res
@@ -325,6 +331,7 @@ fn import_and_compare(
     let mut labels = vec![];
     for (on, name) in [
         (case.http, "import-via-http"),
+        (case.http && case.client, "import-via-xs-client-library"),
         (case.reopen_target, "target-reopened"),
         (!in_id_order, "import-order-not-id-order"),
         (!case.dups.is_empty() && !frames.is_empty(), "duplicate-imports"),
